@@ -26,6 +26,47 @@ def generate(o):
                         return side.value
         raise KeyError("bulk threshold")
 
+    def class_node():
+        for n in src.tree.body:
+            if isinstance(n, ast.ClassDef) and n.name == "Distogram":
+                return n
+        raise KeyError("Distogram")
+
+    def class_dunders():
+        # every `__x__` the class body defines: `def __x__` or `__x__ = ...` (e.g. `__iadd__ = __add__`)
+        names = set()
+        for n in class_node().body:
+            if isinstance(n, (ast.FunctionDef, ast.AsyncFunctionDef)):
+                names.add(n.name)
+            elif isinstance(n, ast.Assign):
+                names.update(t.id for t in n.targets if isinstance(t, ast.Name))
+        return sorted(x for x in names if x.startswith("__") and x.endswith("__") and x != "__slots__")
+
+    def augmented_add():
+        """What `acc += part` runs.  No `__iadd__` in the class: Python falls back to `__add__`.  An `__iadd__` that hands
+        over to `__add__` (`__iadd__ = __add__`, `return self + operand`, `return self.__add__(operand)`) is `__add__` too;
+        one that returns the bare `merge(self, operand)` is the bare merge (bounds from the operand's bin centres);
+        anything else is not recognised (degrades to the pinned value; the `+=` histories judge it on every run)."""
+        for n in class_node().body:
+            if isinstance(n, ast.Assign) and any(isinstance(t, ast.Name) and t.id == "__iadd__" for t in n.targets):
+                if isinstance(n.value, ast.Name) and n.value.id == "__add__":
+                    return "__add__"
+                raise KeyError("__iadd__ assigned from something else")
+            if isinstance(n, ast.FunctionDef) and n.name == "__iadd__":
+                args = [a.arg for a in n.args.args]
+                body = [b for b in n.body if not (isinstance(b, ast.Expr) and isinstance(b.value, ast.Constant))]
+                if len(args) == 2 and len(body) == 1 and isinstance(body[0], ast.Return) and body[0].value is not None:
+                    text = ast.unparse(body[0].value).replace(" ", "")
+                    me, op = args
+                    if text in ("%s+%s" % (me, op), "%s.__add__(%s)" % (me, op), "Distogram.__add__(%s,%s)" % (me, op)):
+                        return "__add__"
+                    if text in ("merge(%s,%s)" % (me, op), "merge(h1=%s,h2=%s)" % (me, op)):
+                        return "merge"
+                raise KeyError("__iadd__ body not recognised")
+        return "__add__"
+
+    dunders = o.item("distogram.class_dunders", class_dunders, ["__add__", "__init__"])
+    aug = o.item("distogram.augmented_add", augmented_add, "__add__")
     cap = o.item("distogram.default_bin_count", default_cap, 50)
     fac = o.item("distogram.bulk_factor", bulk_factor, 5)
     pb = o.item("profiler.DISTOGRAM_BIN_COUNT", lambda: int(prof.assign("DISTOGRAM_BIN_COUNT")), 50)
@@ -36,5 +77,10 @@ def generate(o):
     text += "def bulkFactor : Nat := %d\n" % fac
     text += "/-- number of numpy.histogram bins in a numeric column profile -/\n"
     text += "def profileBins : Nat := %d\n" % pb
+    text += "/-- the special methods `class Distogram` defines itself (`def __x__` / `__x__ = ...`) -/\n"
+    text += "def classDunders : List String := [%s]\n" % ", ".join('"%s"' % d for d in dunders)
+    text += "/-- what `acc += part` runs: `__add__` when the class has no `__iadd__` (Python's fallback) or one that hands over\n"
+    text += "to `__add__`; `merge` when `__iadd__` returns the bare `merge(self, operand)` -/\n"
+    text += "def augmentedAdd : String := \"%s\"\n" % aug
     text += "end Gen.Distogram\n"
     o.files["Distogram.lean"] = text
